@@ -8,6 +8,7 @@ import (
 	"regexp"
 	"strconv"
 	"strings"
+	"sync"
 	"testing"
 
 	"pgregory.net/rapid"
@@ -371,13 +372,109 @@ var c06Stream = &vlib.Check{
 	},
 }
 
+// c06Concurrent: "... or concurrently with other builds".  Several projects are built once each, alone; then all of them
+// are built again and again by as many goroutines at the same time; every result has to be the one the project gave alone.
+// (No race detector here - that is C18's tool; this compares results.)
+var c06Concurrent = &vlib.Check{
+	Prop: "C06", Name: "concurrent-builds", Quick: 120, Thorough: 8000,
+	Oracle: func(c *vlib.Case) *vlib.Violation {
+		docs, _ := c.Params["docs"].([]any)
+		var projects []*vlib.Project
+		for _, d := range docs {
+			s, _ := d.(string)
+			projects = append(projects, vlib.SingleFile([]byte(s)))
+		}
+		if len(projects) < 2 {
+			return nil
+		}
+		alone := make([]string, len(projects))
+		for i, p := range projects {
+			b := vlib.Build(p)
+			alone[i] = outcomeKey(b)
+			b.Close()
+			if strings.HasPrefix(alone[i], "CRASH") {
+				return nil
+			}
+			// a result that is not stable even alone is the business of the repeat check (and of its open findings)
+			b2 := vlib.Build(p)
+			k2 := outcomeKey(b2)
+			b2.Close()
+			if k2 != alone[i] {
+				return nil
+			}
+		}
+		rounds := 12
+		got := make([][]string, len(projects))
+		var wg sync.WaitGroup
+		start := make(chan struct{})
+		for i := range projects {
+			wg.Add(1)
+			go func(i int) {
+				defer wg.Done()
+				<-start
+				for k := 0; k < rounds; k++ {
+					b := vlib.Build(projects[i])
+					got[i] = append(got[i], outcomeKey(b))
+					b.Close()
+				}
+			}(i)
+		}
+		close(start)
+		wg.Wait()
+		for i := range projects {
+			for k, g := range got[i] {
+				if g != alone[i] {
+					return vlib.V("c06:concurrent:"+c06RefineLocationClass(projects[i], c06DiffClass(alone[i], g), alone[i], g), "project %d of %d, build %d made while the others were being built, differs from the build made alone:\n alone:      %s\n concurrent: %s", i, len(projects), k, pretty(alone[i]), pretty(g))
+				}
+			}
+		}
+		return nil
+	},
+	Gen: func(t *rapid.T) *vlib.Case {
+		r := vlib.RapidRnd{T: t}
+		n := 3 + r.Intn(5)
+		var docs []any
+		for len(docs) < n {
+			var p *vlib.Project
+			switch r.Intn(4) {
+			case 0:
+				p = vlib.SingleFile(genPathFamily(r))
+			case 1:
+				if genModelDoc != nil {
+					p = genModelDoc(r)
+				}
+			case 2:
+				doc, _ := genMultiFault(r)
+				p = vlib.SingleFile(doc)
+			}
+			if p == nil {
+				p = genAccepted(r)
+			}
+			if len(p.Files) != 1 || len(p.RootBytes()) > 6000 || strings.ToValidUTF8(string(p.RootBytes()), "") != string(p.RootBytes()) {
+				continue
+			}
+			docs = append(docs, string(p.RootBytes()))
+		}
+		return &vlib.Case{Project: vlib.SingleFile([]byte(docs[0].(string))), Params: map[string]any{"docs": docs}}
+	},
+	Classify: func(c *vlib.Case) (bool, []string) {
+		docs, _ := c.Params["docs"].([]any)
+		return len(docs) >= 4, []string{fmt.Sprintf("projects-%d", len(docs))}
+	},
+	SampleOf: func(c *vlib.Case) any {
+		docs, _ := c.Params["docs"].([]any)
+		return map[string]any{"projects": len(docs), "first": clip(c.Project.RootBytes(), 200)}
+	},
+}
+
 var c06Corpus = &vlib.Check{Prop: "C06", Name: "corpus", Oracle: c06Oracle, Inner: c06Inner, Classify: c06Classify}
 
-func init() { vlib.Register(c06Stream, c06Corpus) }
+func init() { vlib.Register(c06Stream, c06Corpus, c06Concurrent) }
 
 func TestC06(t *testing.T) {
 	if vlib.Shard() == 0 {
 		t.Run("corpus", func(t *testing.T) { c06Corpus.RunEnum(t, corpusEnum()) })
 	}
 	t.Run("repeat", c06Stream.Run)
+	t.Run("concurrent-builds", c06Concurrent.Run)
 }
